@@ -334,7 +334,7 @@ impl TruthWithValidatedDefs<'_, '_> {
     }
 
     pub fn prepare_and_write_debug_info(&mut self, outpath: &Path) -> Result<(), ErrorReported> {
-        let file = std::io::BufWriter::new(self.fs().create_raw(outpath)?);
+        let mut file = std::io::BufWriter::new(self.fs().create_raw(outpath)?);
 
         let debug_info = debug_info::DebugInfo {
             version: debug_info::Version::default(),
@@ -342,7 +342,10 @@ impl TruthWithValidatedDefs<'_, '_> {
             exported_scripts: self.ctx.script_debug_info.clone(),  // FIXME this clone might be expensive?
             consts: self.ctx.consts.debug_info(&self.ctx.defs),
         };
-        serde_json::to_writer(file, &debug_info)
+        serde_json::to_writer(&mut file, &debug_info)
+            .map_err(|e| self.ctx.emitter.emit(error!("while writing file '{}': {e}", self.fs().display_path(outpath))))?;
+        // (flush explicitly; an error while flushing in the BufWriter's Drop impl would be silently ignored)
+        std::io::Write::flush(&mut file)
             .map_err(|e| self.ctx.emitter.emit(error!("while writing file '{}': {e}", self.fs().display_path(outpath))))
     }
 }
